@@ -2,7 +2,7 @@ HOOKS = {
     "guard": "verif",
     "enable": "go1.26.8 test -tags verif (harness module /verif/harness, replace github.com/atlassian/gostatsd => /repo)",
     "baseline_off_cmd": "cd /repo && go test -mod=mod -vet=off -count=1 -timeout 25m ./...",
-    "source_commits": ["0b9c779", "179e9e2", "dd29a2f"],
+    "source_commits": ["0b9c779", "179e9e2", "dd29a2f", "7102c18"],
     "add_only": True,
 }
 ENGINES = [
